@@ -1046,3 +1046,67 @@ def inline_calls(prog, body, should_inline, max_depth=2):
     nbdy = Body(prog, raw, track_mut=body.track_mut)
     nbdy.inlined = True
     return nbdy
+
+
+
+def eliminate_static_refs(prog, body):
+    """Scalar replacement of references: a local that is assigned exactly once, with `&x` / `&mut x` of a whole local x (or a copy
+    / reborrow of such a reference), always points at x.  Every place `(*r).rest` is rewritten to `x.rest`, so that a cursor
+    handed to an inlined helper as `&mut i` is read and written as `i` itself by the integer engines.  Returns a new Body (the
+    original when nothing changes)."""
+    raw = body.raw
+    defs = {}
+    for blk in raw["blocks"]:
+        for s_ in blk["stmts"]:
+            if s_["k"] in ("assign", "setdiscr") and not s_["dst"]["p"]:
+                defs.setdefault(s_["dst"]["l"], []).append(s_.get("rv"))
+        t = blk["term"]
+        if t["k"] == "call" and not t["dst"]["p"]:
+            defs.setdefault(t["dst"]["l"], []).append({"k": "call"})
+    nargs = raw.get("arg_count", 0)
+    target = {}
+    changed = True
+    while changed:
+        changed = False
+        for l, rvs in defs.items():
+            if l in target or len(rvs) != 1 or l <= nargs or rvs[0] is None:
+                continue
+            rv = rvs[0]
+            tgt = None
+            if rv["k"] == "ref" and not rv["pl"]["p"] and rv["pl"]["l"] > 0:
+                x = rv["pl"]["l"]
+                ty = raw["locals"][x].get("ty", "") if x < len(raw["locals"]) else ""
+                if not ty.startswith("&"):
+                    tgt = x
+            elif rv["k"] == "ref" and rv["pl"]["l"] in target and all(p_ == "deref" for p_ in rv["pl"]["p"]) and rv["pl"]["p"]:
+                tgt = target[rv["pl"]["l"]]
+            elif rv["k"] == "use" and rv["a"]["k"] in ("move", "copy") and not rv["a"]["pl"]["p"] and rv["a"]["pl"]["l"] in target:
+                tgt = target[rv["a"]["pl"]["l"]]
+            if tgt is not None:
+                target[l] = tgt
+                changed = True
+    # only integer targets are of interest (and safe to treat as plain variables)
+    target = {r: x for r, x in target.items() if any(k_ in (raw["locals"][x].get("ty", "")) for k_ in ("usize", "isize", "u64", "u32", "i64", "i32", "u16", "u8"))
+              and not raw["locals"][x].get("ty", "").startswith(("&", "(", "["))}
+    if not target:
+        return body
+    new = json.loads(json.dumps(raw))
+    n = [0]
+
+    def fix(o):
+        if isinstance(o, dict):
+            if "l" in o and "p" in o and isinstance(o["p"], list) and o["l"] in target and o["p"] and o["p"][0] == "deref":
+                o["l"] = target[o["l"]]
+                o["p"] = o["p"][1:]
+                n[0] += 1
+            for v in o.values():
+                fix(v)
+        elif isinstance(o, list):
+            for v in o:
+                fix(v)
+    fix(new["blocks"])
+    if not n[0]:
+        return body
+    nb = Body(prog, new, track_mut=body.track_mut)
+    nb.inlined = True
+    return nb
